@@ -332,7 +332,9 @@ def rules(tier):
             # C02-da: a second quit point behind create_guesses
             ('C12.R14', _shared_rule('c08', 'r23_no_save_after_generation')),
             # C12-da: KeyError in the keyboard thread - a quit typed inside a Markov level is never honoured
-            ('C12.R15', _shared_rule('c07', 'r22_keyspace_types'))]
+            ('C12.R15', _shared_rule('c07', 'r22_keyspace_types')),
+            # C12-eb: restored child probability scaled from the parent's instead of recomputed
+            ('C12.R16', _shared_rule('c01', 'r4_prob_pt_coupling'))]
 
 
 META = {
